@@ -118,8 +118,8 @@ type runState struct {
 	// waited for with the full bound again, and after maxUnlisted distinct ones the
 	// walk stops (a change that breaks every shutdown must end as a violation, not
 	// as an exhausted time budget)
-	reported    map[string]bool
-	nUnlisted   int
+	reported  map[string]bool
+	nUnlisted int
 }
 
 const (
@@ -342,16 +342,22 @@ func TestC15(t *testing.T) {
 		}
 		for _, p := range r.pos {
 			for v := 0; v < variantCount(r.scn, r.fault, p); v++ {
+				idx++ // a cell and all its schedules belong to one shard
+				if idx%shards != shard {
+					continue
+				}
 				for k := 0; k < schedules; k++ {
-					idx++
-					if idx%shards != shard {
-						continue
-					}
 					st.evalCase(genCase(r, p, v).Example(baseSeed*7919+ri*131+(p+3)*17+v*5+k), viol)
 				}
 			}
 		}
 	}
+
+	// coverage of the table is counted for the walk only (every row / cell belongs to
+	// exactly one shard, so the per-shard counts add up)
+	st.mu.Lock()
+	nRows, nCellsCov := len(st.rows), len(st.cells)
+	st.mu.Unlock()
 
 	// ---- phase 2: rapid draws whole cases
 	rec.Check(func(rt *rapid.T) {
@@ -361,8 +367,10 @@ func TestC15(t *testing.T) {
 	})
 
 	st.mu.Lock()
-	rec.SetExtra("n_rows_covered", len(st.rows))
-	rec.SetExtra("n_cells_covered", len(st.cells))
+	if !rec.Thorough() {
+		rec.SetExtra("n_rows_covered_by_walk", nRows)
+	}
+	rec.SetExtra("n_cells_covered_by_walk", nCellsCov)
 	sort.Float64s(st.settle)
 	if n := len(st.settle); n > 0 {
 		rec.SetExtra("settle_ms_median", st.settle[n/2])
